@@ -407,10 +407,10 @@ func C07(c *hx.Ctx) {
 	}
 	// reader side: generated streams
 	type rcase struct {
-		name   string
-		data   []byte
-		plain  []byte
-		nt     bool
+		name  string
+		data  []byte
+		plain []byte
+		nt    bool
 	}
 	var rs []rcase
 	ops := &opsBatch{}
